@@ -395,7 +395,7 @@ static void mon_c12(ctx *c, lgraph *g)
     { int32 post2 = lattice_posterior(dag, ascale); if (post2 != post) vh_viol("posterior_not_repeatable", "lattice_posterior returned %d, then %d on the same lattice", post, post2); check_posteriors(g, dag, post2, unit, zero, "second_call:"); }
     /* N-best */
     {
-        hyp_iter_t *nb; int n = 0; int32 prev = 0; int limit = vh_tier ? 200 : 60;
+        hyp_iter_t *nb; int n = 0; int32 prev = 0; int limit = vh_tier ? 200 : 60, interleave = vh_chance(c->r, 0.3);
         vh_ctx("decoder_nbest");
         for (nb = decoder_nbest(c->d); nb; nb = hyp_iter_next(nb)) {
             int32 sc = 0; const char *h = hyp_iter_hyp(nb, &sc); seg_iter_t *si; char joined[4096]; size_t o = 0; int ok = 1, first = 1, any, u, pef = -1; char why[260] = "";
@@ -425,6 +425,8 @@ static void mon_c12(ctx *c, lgraph *g)
             if (!ok) { vh_viol("nbest_not_a_lattice_path", "N-best entry %d (\"%s\"): %s", n, h ? h : "", why); hyp_iter_free(nb); break; }
             if (strcmp(h ? h : "", joined)) { vh_viol("nbest_string_mismatch", "N-best entry %d string \"%s\" but its path's words are \"%s\"", n, h ? h : "", joined); hyp_iter_free(nb); break; }
             if (++n >= limit) { hyp_iter_free(nb); break; }
+            /* lattice queries between two steps of the iterator (they share per-node scratch fields with the A* search) must not disturb it */
+            if (interleave && vh_chance(c->r, 0.3)) { vh_ctx("lattice_bestpath_between_nbest_steps"); if (vh_chance(c->r, 0.5)) (void)lattice_bestpath(dag, ascale); else (void)lattice_posterior(dag, ascale); vh_count("lattice_queries_between_nbest_steps", 1); vh_ctx("hyp_iter_next"); }
         }
         vh_count("nbest_entries_checked", n);
         if (n > 1) vh_count("nbest_lists_with_several_entries", 1);
